@@ -130,7 +130,7 @@ func constructs(route, lib string, v vu.Val, t vu.Type, explicit bool) []string 
 		if lib == "vm" && anyIdx && (route == "api" || route == "as" || route == "let") {
 			out = append(out, cVMPathIdx)
 		}
-		if lib == "tree" && route == "api" && anyAddr {
+		if lib == "tree" && (route == "api" || route == "as" || route == "let") && anyAddr {
 			out = append(out, cTreePath)
 		}
 	}
@@ -294,7 +294,7 @@ func (c12) Cases(tier string, seed uint64) []fw.Case {
 		{cOptWrap, []string{"api", "as", "let", "host-arg"}, []string{"vm", "tree"}},
 		{cTreeAny, []string{"api"}, []string{"tree"}},
 		{cVMPathIdx, []string{"api", "as", "let"}, []string{"vm"}},
-		{cTreePath, []string{"api"}, []string{"tree"}},
+		{cTreePath, []string{"api", "as", "let"}, []string{"tree"}},
 		{cTreeFatal, []string{"as", "let"}, []string{"tree"}},
 		{cHostConv, []string{"host-arg"}, []string{"vm"}},
 	}
